@@ -678,7 +678,8 @@ func vfc13IsReserved(k []byte) bool {
 	return false
 }
 
-// business keys: a small pool so that histories collide on keys
+// business keys: small pools so that histories collide on keys; a key name is
+// bound to one type (type conflicts between the sites are not the property)
 func vfc13BizKey(r *vfutil.Rand) []byte {
 	switch r.Intn(14) {
 	case 0:
@@ -694,8 +695,20 @@ func vfc13BizKey(r *vfutil.Rand) []byte {
 	case 5:
 		return []byte("redis-gunyu-checkpoin")
 	default:
-		return []byte(fmt.Sprintf("k%d", r.Intn(6)))
+		return []byte(fmt.Sprintf("k%d", r.Intn(5)))
 	}
+}
+
+func vfc13TypedKey(r *vfutil.Rand, kind string) []byte {
+	return []byte(fmt.Sprintf("%s%d", kind, r.Intn(3)))
+}
+
+// any key, whatever its type (DEL, EXPIRE, …)
+func vfc13AnyKey(r *vfutil.Rand) []byte {
+	if r.Chance(1, 2) {
+		return vfc13BizKey(r)
+	}
+	return vfc13TypedKey(r, vfutil.Pick(r, []string{"h", "e", "z", "l", "n", "o"}))
 }
 
 // values: include byte-identical copies of marker values and of control keys
@@ -720,6 +733,7 @@ func vfc13Value(r *vfutil.Rand, w *vfc13World) []byte {
 // one client data command on non-reserved keys
 func vfc13ClientCmd(r *vfutil.Rand, w *vfc13World) vfc13Cmd {
 	k := vfc13BizKey(r)
+	ak := vfc13AnyKey(r)
 	v := vfc13Value(r, w)
 	name := func(s string) []byte {
 		if r.Chance(1, 5) {
@@ -741,35 +755,35 @@ func vfc13ClientCmd(r *vfutil.Rand, w *vfc13World) vfc13Cmd {
 	case 7:
 		return vfc13Cmd{Name: name("set"), Args: [][]byte{k, v, []byte("KEEPTTL")}}
 	case 8:
-		return vfc13Cmd{Name: name("del"), Args: [][]byte{k, vfc13BizKey(r)}}
+		return vfc13Cmd{Name: name("del"), Args: [][]byte{ak, vfc13AnyKey(r)}}
 	case 9:
-		return vfc13Cmd{Name: name("unlink"), Args: [][]byte{k}}
+		return vfc13Cmd{Name: name("unlink"), Args: [][]byte{ak}}
 	case 10:
-		return vfc13Cmd{Name: name("expire"), Args: [][]byte{k, []byte(strconv.Itoa(r.Intn(3)))}}
+		return vfc13Cmd{Name: name("expire"), Args: [][]byte{ak, []byte(strconv.Itoa(r.Intn(3)))}}
 	case 11:
-		return vfc13Cmd{Name: name("pexpire"), Args: [][]byte{k, []byte(strconv.Itoa(r.Range(0, 400)))}}
+		return vfc13Cmd{Name: name("pexpire"), Args: [][]byte{ak, []byte(strconv.Itoa(r.Range(0, 400)))}}
 	case 12:
-		return vfc13Cmd{Name: name("pexpireat"), Args: [][]byte{k, []byte(strconv.Itoa(r.Range(0, 3000)))}}
+		return vfc13Cmd{Name: name("pexpireat"), Args: [][]byte{ak, []byte(strconv.Itoa(r.Range(0, 3000)))}}
 	case 13:
-		return vfc13Cmd{Name: name("persist"), Args: [][]byte{k}}
+		return vfc13Cmd{Name: name("persist"), Args: [][]byte{ak}}
 	case 14:
-		return vfc13Cmd{Name: name("hset"), Args: [][]byte{k, []byte("f" + strconv.Itoa(r.Intn(3))), v}}
+		return vfc13Cmd{Name: name("hset"), Args: [][]byte{vfc13TypedKey(r, "h"), []byte("f" + strconv.Itoa(r.Intn(3))), v}}
 	case 15:
-		return vfc13Cmd{Name: name("hdel"), Args: [][]byte{k, []byte("f" + strconv.Itoa(r.Intn(3)))}}
+		return vfc13Cmd{Name: name("hdel"), Args: [][]byte{vfc13TypedKey(r, "h"), []byte("f" + strconv.Itoa(r.Intn(3)))}}
 	case 16:
-		return vfc13Cmd{Name: name("sadd"), Args: [][]byte{k, []byte("m" + strconv.Itoa(r.Intn(3)))}}
+		return vfc13Cmd{Name: name("sadd"), Args: [][]byte{vfc13TypedKey(r, "e"), []byte("m" + strconv.Itoa(r.Intn(3)))}}
 	case 17:
-		return vfc13Cmd{Name: name("srem"), Args: [][]byte{k, []byte("m" + strconv.Itoa(r.Intn(3)))}}
+		return vfc13Cmd{Name: name("srem"), Args: [][]byte{vfc13TypedKey(r, "e"), []byte("m" + strconv.Itoa(r.Intn(3)))}}
 	case 18:
-		return vfc13Cmd{Name: name("zadd"), Args: [][]byte{k, []byte("1"), []byte("m" + strconv.Itoa(r.Intn(3)))}}
+		return vfc13Cmd{Name: name("zadd"), Args: [][]byte{vfc13TypedKey(r, "z"), []byte("1"), []byte("m" + strconv.Itoa(r.Intn(3)))}}
 	case 19:
-		return vfc13Cmd{Name: name("zrem"), Args: [][]byte{k, []byte("m" + strconv.Itoa(r.Intn(3)))}}
+		return vfc13Cmd{Name: name("zrem"), Args: [][]byte{vfc13TypedKey(r, "z"), []byte("m" + strconv.Itoa(r.Intn(3)))}}
 	case 20:
-		return vfc13Cmd{Name: name("incrby"), Args: [][]byte{k, []byte("3")}}
+		return vfc13Cmd{Name: name("incrby"), Args: [][]byte{vfc13TypedKey(r, "n"), []byte("3")}}
 	case 21:
-		return vfc13Cmd{Name: name("rpush"), Args: [][]byte{k, v}}
+		return vfc13Cmd{Name: name("rpush"), Args: [][]byte{vfc13TypedKey(r, "l"), v}}
 	case 22:
-		return vfc13Cmd{Name: name("restore"), Args: [][]byte{k, []byte(strconv.Itoa(r.Intn(300))), r.Bytes(6), []byte("REPLACE")}}
+		return vfc13Cmd{Name: name("restore"), Args: [][]byte{vfc13TypedKey(r, "o"), []byte(strconv.Itoa(r.Intn(300))), r.Bytes(6), []byte("REPLACE")}}
 	default:
 		return vfc13Cmd{Name: name("mset"), Args: [][]byte{k, v, vfc13BizKey(r), vfc13Value(r, w)}}
 	}
@@ -990,7 +1004,7 @@ func (w *vfc13World) linkStep(r *vfutil.Rand, src int, kind string) {
 		if blk.tag[0] == 'f' {
 			var id int
 			fmt.Sscanf(blk.tag, "f%d", &id)
-			if w.foreignOK[id] {
+			if w.foreignOK[id] && len(blk.cmds) > 0 {
 				w.s.Violate("foreign-block-suppressed", "a client/expiry block outside the reserved namespace did not come out of parseAofReplayUnits", replay)
 				w.viol = true
 			}
@@ -1072,7 +1086,7 @@ func (w *vfc13World) finishCommit(l *vfc13Link, kind string, blk vfc13Block, u *
 	ctag := blk.tag + "@" + vfc13SiteName(l.dst)
 	w.commits = append(w.commits, ctag)
 	w.commitCount[blk.tag]++
-	if w.commitCount[blk.tag] > 1 {
+	if blk.tag[0] == 'f' && w.commitCount[blk.tag] > 1 {
 		w.s.Violate("write-applied-twice", "the unit of block "+blk.tag+" was committed more than once", replay)
 		w.viol = true
 	}
@@ -1251,7 +1265,7 @@ func vfc13RunHistory(s *vfutil.Session, r *vfutil.Rand, nEv int, scripted []stri
 			}
 			var id int
 			fmt.Sscanf(b.tag, "f%d", &id)
-			if w.foreignOK[id] && w.commitCount[b.tag] != 1 {
+			if w.foreignOK[id] && len(b.cmds) > 0 && w.commitCount[b.tag] != 1 {
 				s.Violate("write-not-applied-exactly-once", fmt.Sprintf("block %s applied %d times at the other site", b.tag, w.commitCount[b.tag]),
 					map[string]interface{}{"events": strings.Join(w.evs, " ")})
 				w.viol = true
